@@ -1,51 +1,43 @@
 #!/usr/bin/env python3
-"""Copies the sub-agent seeds into /verif/seeded/<id>/ and records confirmation + kill matrix."""
-import json, os, shutil, subprocess, sys
-PORTED = {'C04-b': 'ported_C04b_narrow_lock.diff', 'C13-a': 'ported_C13a_request_flag.diff', 'C14-b': 'ported_C14b_reserved_id_guard.diff'}
+"""Copies sub-agent seeds into /verif/seeded/<id>/ (round 2: /tmp/seed/<Cxx>r2/seed/<ab>) and refreshes the kill matrix of every
+seed directory (tools/kill_matrix.sh on a scratch copy of /repo HEAD)."""
+import json, os, shutil, subprocess, sys, glob
 out = '/verif/seeded'
-os.makedirs(out, exist_ok=True)
-summary = []
+PORTED = {'C04-b': 'ported_C04b_narrow_lock.diff', 'C13-a': 'ported_C13a_request_flag.diff', 'C14-b': 'ported_C14b_reserved_id_guard.diff'}
+# import round 2
 for pid in ['C02','C03','C04','C05','C06','C07','C08','C10','C11','C12','C13','C14','C15','C16','C17']:
     for ab in 'ab':
-        sid = '%s-%s' % (pid, ab)
-        src = '/tmp/seed/%s/seed/%s' % (pid, ab)
+        src = '/tmp/seed/%sr2/seed/%s' % (pid, ab)
+        sid = '%sr2-%s' % (pid, ab)
         if not os.path.exists(src + '/patch.diff'):
             continue
         d = os.path.join(out, sid)
         os.makedirs(d, exist_ok=True)
         shutil.copy(src + '/patch.diff', d + '/patch.diff')
         shutil.copy(src + '/demo.rs', d + '/demo.rs')
-        agent_meta = json.load(open(src + '/meta.json')) if os.path.exists(src + '/meta.json') else {}
-        head_patch = d + '/patch.diff'
-        if sid in PORTED:
-            shutil.copy('/verif/mutants/' + PORTED[sid], d + '/patch_head.diff')
-            head_patch = d + '/patch_head.diff'
-        r = subprocess.run(['/verif/tools/kill_matrix.sh', head_patch], stdout=subprocess.PIPE, text=True).stdout
-        rules = sorted({l.split('\t')[0].split()[-1] for l in r.splitlines() if l.startswith('VIOLATION')})
-        props = sorted({x.split('_')[0] for x in rules})
+        am = json.load(open(src + '/meta.json')) if os.path.exists(src + '/meta.json') else {}
         conf = {}
-        for f in ('/tmp/cs/results/%s.json' % sid,):
-            if os.path.exists(f):
-                conf = json.load(open(f))
-        base = None
-        for l in open('/tmp/cs/base.log') if os.path.exists('/tmp/cs/base.log') else []:
-            if l.startswith('{') and json.loads(l)['seed'] == sid:
-                base = json.loads(l)
-        meta = {
-            'id': sid, 'property': pid,
-            'summary': agent_meta.get('summary', ''),
-            'needs_to_manifest': agent_meta.get('needs_to_manifest', ''),
-            'demo_path': agent_meta.get('demo_path', 'tests/seed_demo_%s.rs' % ab),
-            'author': 'fresh sub-agent given only the property text and a scratch worktree of /repo at 8fcb7aa',
-            'confirmed_by_me': {
-                'how': 'tools/confirm_seed.sh: scratch git worktree of /repo, demo on the clean tree (must pass), patch applied (git apply / --3way), cargo test --lib --test tests (76 must pass), demo again (must fail); worktree removed afterwards',
-                'at_repo_head': conf, 'at_pinned_base_8fcb7aa': base,
-            },
-            'ported_to_head': sid in PORTED and 'patch_head.diff is my port of the same change onto /repo HEAD (the original no longer applies after the fix: commits); re-confirmed the same way in a scratch worktree (suite 76 pass, demo fails with / passes without)' or None,
-            'caught_by_rules': rules, 'caught_by_checks': props,
-            'caught_by_own_property_check': pid in props,
-        }
+        f = '/tmp/cs/results/%sr2-%s.json' % (pid, ab)
+        if os.path.exists(f):
+            conf = json.load(open(f))
+        meta = {'id': sid, 'property': pid, 'round': 2, 'summary': am.get('summary', ''), 'needs_to_manifest': am.get('needs_to_manifest', ''),
+                'demo_path': am.get('demo_path', 'tests/seed_demo_%s.rs' % ab),
+                'author': 'fresh sub-agent (round 2) given only the property text, the summaries of the round-1 changes to avoid, and a scratch worktree of /repo HEAD',
+                'confirmed_by_me': {'how': 'tools/confirm_seed.sh: scratch git worktree of /repo HEAD, demo on the clean tree (must pass), patch applied, cargo test --lib --test tests (76 must pass), demo again (must fail); worktree removed afterwards', 'at_repo_head': conf}}
         json.dump(meta, open(d + '/meta.json', 'w'), indent=1)
-        summary.append((sid, props, rules))
-        print(sid, props, rules, flush=True)
-json.dump([{'seed': s, 'checks': p, 'rules': r} for s, p, r in summary], open(out + '/KILL_MATRIX.json', 'w'), indent=1)
+summary = []
+for d in sorted(glob.glob(out + '/C*-*')):
+    sid = os.path.basename(d)
+    pid = sid[:3]
+    patch = d + '/patch_head.diff' if os.path.exists(d + '/patch_head.diff') else d + '/patch.diff'
+    r = subprocess.run(['/verif/tools/kill_matrix.sh', patch], stdout=subprocess.PIPE, text=True).stdout
+    rules = sorted({l.split('\t')[0].split()[-1].replace('_', '.', 1) for l in r.splitlines() if l.startswith('VIOLATION')})
+    props = sorted({x.split('.')[0] for x in rules})
+    meta = json.load(open(d + '/meta.json'))
+    meta['caught_by_rules'] = rules
+    meta['caught_by_checks'] = props
+    meta['caught_by_own_property_check'] = pid in props
+    json.dump(meta, open(d + '/meta.json', 'w'), indent=1)
+    summary.append({'seed': sid, 'checks': props, 'rules': rules})
+    print(sid, props, rules, flush=True)
+json.dump(summary, open(out + '/KILL_MATRIX.json', 'w'), indent=1)
